@@ -8,6 +8,17 @@ TECH_E2 = "bounded-exhaustive enumeration of inputs x configurations vs. indepen
 TECH_E1 = "explicit-state BFS over the real object's reachable states with reference model in lock-step + stateless history enumeration"
 
 CLAIMED = {
+    "C01": {
+        "category": "exploration",
+        "text": "Bounded-exhaustive: every pair of plane binary shapes (quick: <=4 object x <=3 species leaves; thorough: "
+                "<=4x<=4 on the full coherent {0,1,2}^3 x {0,1,2,inf} cost grid, 5x<=4 on six vectors, <=3x5..6 on the core menu), "
+                "every leaf assignment (hence every pattern of empty species), thl and exh under ALL and ANY, generate_all per input; "
+                "oracle = brute force over all |S|^internal mappings. Complete within the slices, silent about larger inputs.",
+        "design_ref": "6 (C01), 4, 5",
+        "note": "Trusted: refmodel/dtl.py (cross-validated brute force <-> Bellman), ete3 container, CPython. Cost vectors "
+                "restricted to spe <= dup + 2*floss; outside it only the F-COHERENCE witnesses of known_findings.json are replayed.",
+        "technique": TECH_E2,
+    },
     "C16": {
         "category": "model_checking",
         "text": "Explicit-state BFS over all reachable states of real Entry objects and table cells (1-3 dimensional, "
